@@ -47,7 +47,9 @@ def build(where, kinds, handlers, args, double_kind=None, only_exec=False):
                 (late if apart else mattrs).append("%s, %s" % (k, marker("M2_" + k)))
     mattrs += late
     if where == "contract":
-        base = [Method("instantiate", "inst", (Arg("a", "u32"),)), Method("migrate", "mig", (Arg("a", "u32"),))]
+        # with attributes written apart, instantiate and migrate take no arguments (their message types have no fields)
+        ia = () if apart else (Arg("a", "u32"),)
+        base = [Method("instantiate", "inst", ia), Method("migrate", "mig", ia)]
         return Contract(methods=tuple(base + ms), msg_attrs=tuple(mattrs))
     return Interface(name="If", module="ifc", methods=tuple(ms), custom="msg=Empty, query=Empty",
                      attrs=tuple("#[sv::msg_attr(%s)]" % m for m in mattrs))
@@ -137,6 +139,9 @@ def configs(tier):
         # the same kind's attributes written apart (other kinds' attributes in between); two attributes on one argument
         yield (tuple(KINDS6[:5]), ("h0",), (("h0", "a"), ("h0", "b")), dk + "~")
         yield ((dk, "query" if dk != "query" else "sudo"), ("h0", "q0"), (("h0", "a"),), dk + "~")
+    # every kind subset once more on the contract whose instantiate / migrate messages have no fields
+    for k in ks:
+        yield (k, (), (), "exec~" if "exec" in k else "sudo~")
     # kinds without any handler still get their forwarded attributes
     for k in ks:
         yield (k, ("h0", "h1"), (("h0", "a"),), "only_exec")
